@@ -99,9 +99,9 @@ def _child(testdir):
         from decwire import cell
         args = {"phase": kw.get("phase", ""), "ta": cell(kw.get("ta", 25.0)), "vtol": cell(kw.get("vtol", 1e-6)),
                 "itol": cell(kw.get("itol", 1e-6)), "energy": bool(kw.get("energy", False)), "maxiter": int(kw.get("maxiter", 10000))}
-        return {"id": cid, "st": project(s), "args": args, "kw": {}, "outcome": "ok", "exc": "", "msg": "",
+        return {"id": cid, "built": True, "st": project(s), "args": args, "kw": {}, "outcome": "ok", "exc": "", "msg": "",
                 "table": drv_solve.table_wire(df), "rail": {"cols": ["none"], "rows": [], "isnone": True},
-                "hasrail": False, "railexc": "", "has_design": False, "design": [], "has_slice": False,
+                "hasrail": False, "railexc": "", "has_design": False, "design": [], "haswant": False, "want": [], "has_slice": False,
                 "slice_of": {"cols": ["none"], "rows": [], "isnone": True}}
 
     # the wrapper installed by the recorder records the call as an analysis event; the plugin above is installed
